@@ -728,3 +728,92 @@ Example empty_fields_regression :
   let ss := [VBraceEmpty; VTupleEmpty; VUnit] in
   enum_accepts_shapes ss = true /\ arms_typecheck false ss = false /\ arms_typecheck true ss = true.
 Proof. repeat split. Qed.
+
+(* ================================================================== arm coverage (every variant has an arm, no arm is foreign) *)
+
+Section ArmCoverage.
+  Variable lower : str -> str.
+  Variables kf gf : ident -> str.
+
+  Lemma arms_of_group_in g p go v :
+    In (Arm p go v) (arms_of_group gf g) -> p = fst g /\ In v (snd g) /\ (go = None \/ go = Some (gf v)).
+  Proof.
+    unfold arms_of_group. destruct g as [k ms]; cbn [fst snd].
+    assert (Hmap : In (Arm p go v) (map (fun v0 => Arm k (Some (gf v0)) v0) ms) ->
+                   p = k /\ In v ms /\ (go = None \/ go = Some (gf v))).
+    { intros H. apply in_map_iff in H as [w [E Hw]]. inversion E; subst. auto. }
+    destruct ms as [|a [|b ms]]; [intros [] | | exact Hmap].
+    cbn [In]. intros [E|[]]. inversion E; subst. auto.
+  Qed.
+
+  Lemma arms_of_group_cover g v :
+    In v (snd g) -> exists go, In (Arm (fst g) go v) (arms_of_group gf g).
+  Proof.
+    unfold arms_of_group. destruct g as [k ms]; cbn [fst snd]. intros Hv.
+    assert (Hmap : exists go, In (Arm k go v) (map (fun v0 => Arm k (Some (gf v0)) v0) ms)).
+    { exists (Some (gf v)). apply in_map_iff. exists v. auto. }
+    destruct ms as [|a [|b ms]]; [destruct Hv | | exact Hmap].
+    destruct Hv as [->|[]]. exists None. left. reflexivity.
+  Qed.
+
+  (** no arm is foreign: every arm of the generated `match` carries a variant of the enum, its pattern is that
+      variant's lower-cased key, its guard (if any) that variant's own guard string *)
+  Theorem arms_sound vs gs p go v :
+    GroupsOf lower kf vs gs -> In (Arm p go v) (all_arms gf gs) ->
+    In v vs /\ p = lower (kf v) /\ (go = None \/ go = Some (gf v)).
+  Proof.
+    intros [_ Hs] H. unfold all_arms in H. apply in_flat_map in H as [[k ms] [Hg Ha]].
+    apply arms_of_group_in in Ha as [-> [Hv Hgo]]. cbn [fst snd] in *.
+    apply Hs in Hg as [-> _]. apply filter_In in Hv as [Hv Hk]. unfold keyis in Hk.
+    apply str_eqb_eq in Hk. auto.
+  Qed.
+
+  (** no variant is lost: every variant of the enum has an arm whose pattern is its lower-cased key *)
+  Theorem arms_complete vs gs v :
+    GroupsOf lower kf vs gs -> In v vs -> exists go, In (Arm (lower (kf v)) go v) (all_arms gf gs).
+  Proof.
+    intros [_ Hs] Hv.
+    assert (Hin : In v (filter (keyis lower kf (lower (kf v))) vs)).
+    { apply filter_In. split; [exact Hv|]. unfold keyis. apply str_eqb_refl. }
+    assert (Hg : In (lower (kf v), filter (keyis lower kf (lower (kf v))) vs) gs).
+    { apply Hs. split; [reflexivity|]. intros E. rewrite E in Hin. destruct Hin. }
+    destruct (arms_of_group_cover (lower (kf v), filter (keyis lower kf (lower (kf v))) vs) v Hin) as [go Hgo].
+    exists go. unfold all_arms. apply in_flat_map. eexists. split; [exact Hg | exact Hgo].
+  Qed.
+
+  Lemma match_arms_in arms s v :
+    match_arms lower arms s = Some v -> exists p go, In (Arm p go v) arms.
+  Proof.
+    induction arms as [|[p go w] arms IH]; cbn [match_arms]; [discriminate|].
+    destruct (_ && _).
+    - intros E. inversion E; subst. exists p, go. left. reflexivity.
+    - intros H. destruct (IH H) as [p' [go' Hin]]. exists p', go'. right. exact Hin.
+  Qed.
+
+  (** a hit is only ever on an input whose lower-casing is the arm's pattern *)
+  Lemma match_arms_pat arms s v :
+    match_arms lower arms s = Some v -> exists go, In (Arm (lower s) go v) arms.
+  Proof.
+    induction arms as [|[p go w] arms IH]; cbn [match_arms]; [discriminate|].
+    destruct (str_eqb (lower s) p) eqn:Ep; cbn [andb].
+    - destruct (match go with None => true | Some x => str_eqb s x end).
+      + intros E. inversion E; subst. apply str_eqb_eq in Ep. subst p. exists go. left. reflexivity.
+      + intros H. destruct (IH H) as [go' Hin]. exists go'. right. exact Hin.
+    - intros H. destruct (IH H) as [go' Hin]. exists go'. right. exact Hin.
+  Qed.
+End ArmCoverage.
+
+(** the derive never returns a variant of another enum, and a hit agrees with the input ignoring case - with NO
+    hypothesis on the variant list (not even distinct names), for every switch setting and iteration order *)
+Theorem ok_in_any lower ku gu ename vs gs s v :
+  GroupsOf lower (shown ku) vs gs ->
+  parse_groups lower (shown gu) ename gs s = Ok v -> In v vs /\ lower s = lower (shown ku v).
+Proof.
+  intros HG. unfold parse_groups. destruct (match_arms _ _ _) as [w|] eqn:E; [|discriminate].
+  intros H. inversion H; subst w. apply match_arms_pat in E as [go Hin].
+  destruct (arms_sound lower (shown ku) (shown gu) vs gs _ _ _ HG Hin) as [Hv [Hp _]]. auto.
+Qed.
+
+Theorem enum_ok_in lower ku gu nu enum vs s v :
+  enum_from lower ku gu nu enum vs s = Ok v -> In v vs /\ lower s = lower (shown ku v).
+Proof. unfold enum_from, parse. apply ok_in_any. apply groups_spec. Qed.
